@@ -1,5 +1,5 @@
 SPECIFICATION Spec
-CONSTANTS Dim = 1  MaxN = 4  MaxC = 2  InfMode = 2
+CONSTANTS Dim = 1  MaxN = 4  MaxC = 0  InfMode = 2
 INVARIANT NonEmptyIffComplete
 INVARIANT OnlyComplete
 INVARIANT PlainIsOptimum
